@@ -156,8 +156,11 @@ func init() {
 
 func (x *Exec) useLower() {
 	x.X.declare("loweraxioms", `
-(assert (forall ((s Str)) (! (and (= (slen (strlower s)) (slen s)) (= (strlower (strlower s)) (strlower s)) (strok (strlower s))
-  (forall ((i Int)) (! (= (select (sdata (strlower s)) i) (let ((c (select (sdata s) i))) (ite (and (<= 65 c) (<= c 90)) (+ c 32) c))) :pattern ((select (sdata (strlower s)) i))))) :pattern ((strlower s)))))`)
+(assert (forall ((s Str)) (! (=> (strok s) (and (= (slen (strlower s)) (slen s)) (= (strlower (strlower s)) (strlower s)) (strok (strlower s))
+  (forall ((i Int)) (! (= (select (sdata (strlower s)) i) (let ((c (select (sdata s) i))) (ite (and (<= 65 c) (<= c 90)) (+ c 32) c))) :pattern ((select (sdata (strlower s)) i)))))) :pattern ((strlower s)))))`)
+	// NOTE: the guard (strok s) is essential: quantifying over *all* Str values, including
+	// ill-formed ones (bytes outside 0..255), made the unguarded axiom inconsistent (found by a
+	// vacuity probe: cvc5 derived false from it).
 	x.assumed["strings.ToLower modelled as byte-wise ASCII lower-casing (exact for ASCII strings; non-ASCII case mapping not modelled)"] = true
 }
 
@@ -193,7 +196,21 @@ func (x *Exec) externPure(f *frame, callee *ssa.Function, in *ssa.Call, args []d
 }
 
 func (x *Exec) externInvokePure(f *frame, in *ssa.Call, args []dual) (dual, bool) {
-	return dual{}, false
+	var r dual
+	for m := 0; m < 2; m++ {
+		f.mode = m
+		recv := f.get(in.Call.Value).T
+		var av []Val
+		for _, a := range args {
+			av = append(av, a[m])
+		}
+		v, ok := x.pureIfaceCall(&in.Call, recv, av)
+		if !ok {
+			return dual{}, false
+		}
+		r[m] = v
+	}
+	return r, true
 }
 
 // externCall: effects / results of calls to functions without contracts in main mode.
@@ -324,6 +341,13 @@ func isEffectFree(name string) bool {
 
 func (x *Exec) externInvoke(f *frame, in ssa.Instruction, c *ssa.CallCommon, args []Val) (Val, bool) {
 	name := c.Method.FullName()
+	if v, ok := x.pureIfaceCall(c, x.val(c.Value).T, args); ok {
+		if !isSimpleTerm(v.T) {
+			v.T = x.define(x.fresh("im"), x.X.sortOf(c.Signature().Results().At(0).Type()), v.T)
+		}
+		x.assume(f.st, x.typeInv(c.Signature().Results().At(0).Type(), v.T, f.st))
+		return v, true
+	}
 	switch {
 	case strings.Contains(name, "grpclog.") && (strings.HasSuffix(name, ".V") || strings.Contains(name, ".Info") || strings.Contains(name, ".Warning") || strings.Contains(name, ".Error")):
 		x.assumed["extern "+name+": no effect on modelled state (logging)"] = true
